@@ -37,7 +37,7 @@ from vlib import harness  # noqa: E402
 
 PROP = "C28"
 NQ = 8
-EXCLUDE = {"shared_simulator.with_seed"}
+EXCLUDE = set()  # {"shared_simulator.with_seed"} was excluded until the defect was fixed in /repo (b5a0a50)
 UNSET = "unset"
 
 SEEDS = [None, 1, 1, 2, 2, 3]
